@@ -131,7 +131,7 @@ fn run_seq<X: Tree>(ctx: &mut Ctx, gen: &Gen, vm: &str, ties: Option<Vec<usize>>
                 qwt::verif_hooks::set_tie_script(None);
                 if let Some(d) = d {
                     let mut o2 = o.clone();
-                    o2.class = format!("{} {}", o.class, if how == 2 { "deserialized" } else { "clone_from" }).trim().to_string();
+                    o2.class = sub_class(&o.class, if how == 2 { "deserialized" } else { "clone_from" });
                     o2.dense_limit = o.dense_limit.min(600);
                     sweep_tree(ctx, &d, &r, &o2);
                     if how == 3 {
